@@ -450,6 +450,12 @@ def gen(tier, rng):
             yield ('random', 10, [w, lay])
         if i % 5 == 0:
             yield ('lowlevel', 11, [w, lay])
+    # values nested up to the limit of 100 levels (the outer delimiter is level 0)
+    for d in (98, 99, 100):
+        deep = '{' * d + 'x' + '}' * d
+        items = [['E', 'misc', 'deep', [['F', 'note', [['T', 'a ' + deep + ' b']]], ['F', 'title', [['T', deep], ['T', deep]]]]]]
+        for q in (0, 1, 3):
+            yield ('deep_nesting', 10, [encode_items(items), [q % 2, q, 0, 1, 0, d]])
     for n in range(0, 7):
         for tup in itertools.product(['a', ' ', '\n', '\xa0'], repeat=n):
             yield ('normalize_whitespace', 3, [''.join(tup)])
